@@ -52,7 +52,10 @@ extern int fv_bufsize;           /* set from the case file: YY_BUF_SIZE is a run
 #ifndef FV_BACKEND_C99           /* the c99 skeleton makes it a constant: %option bufsize is used */
 #define YY_BUF_SIZE fv_bufsize
 #endif
-#ifndef FV_STDIO
+#ifdef FV_BACKEND_CXX
+/* C++: input comes through the documented hook, FvLexer::LexerInput (see tools/fv/rt.py) */
+extern "C" int fv_read_cxx(char *buf, size_t max_size);
+#elif !defined(FV_STDIO)
 #define YY_INPUT(buf,result,max_size) do { (result) = fv_read((void *) yyin, (buf), (max_size)); } while (0)
 #endif
 #define YY_FATAL_ERROR(msg) fv_fatal(msg)
